@@ -200,7 +200,7 @@ CHECKS["C15"] = dict(
 CHECKS["C14"] = dict(
     parts=[dict(pkg="lang", run="^TestC14_")], level="exploration",
     quick=dict(shards=8, checks=8, timeout=1500),
-    thorough=dict(shards=16, checks=200, timeout=6000),
+    thorough=dict(shards=16, checks=48, timeout=6000),
     assumptions=[
         "the compiler is driven through the real cmd/spec binary built from the working tree; `go build` uses the repository toolchain",
         "operators marked reject-or-compile (empty struct) may be accepted as long as the output compiles",
